@@ -331,6 +331,17 @@ def lib_np_array(eng, st, args, kw, node):
 
 
 LIB[("numpy", "array")] = lib_np_array
+def lib_deepcopy(eng, st, args, kw, node):
+    """copy.deepcopy of an immutable scalar is the value itself; of a flat sequence of scalars a fresh sequence with the same elements"""
+    v = args[0]
+    if v.t[0] in ("str", "int", "float", "bool", "enum", "none"):
+        return v
+    if v.t[0] in ("list", "nd") and v.t[1][0] in ("str", "int", "float", "bool", "val"):
+        return st.new_seq(v.t[1], v.t[0], st.seq_len(v), st.seq_elems(v), "deepcopy")
+    raise Unsupported(f"deepcopy of {v.t}")
+
+
+LIB[("copy", "deepcopy")] = lib_deepcopy
 LIB[("numpy", "finfo")] = lambda eng, st, args, kw, node: static("finfo", None)
 
 
